@@ -27,8 +27,8 @@ THEOREMS = [
     "Typedpy.C14.fixed_pep604_union_refused",
     "Typedpy.C14.fault_rejected_statement_false",
     "Typedpy.C14.abstractStructure_itself_not_instantiable",
-    "Typedpy.C14.constant_required_dropped",
-    "Typedpy.C14.second_base_required_dropped",
+    "Typedpy.C14.fixed_constant_required_kept",
+    "Typedpy.C14.fixed_second_base_required_kept",
     "Typedpy.C14.inheritance_example",
     "Typedpy.C14.keys_of_example",
     "Typedpy.reachable_ok",
@@ -43,8 +43,10 @@ THEOREMS = [
     "Typedpy.C14.sealed_base_rejected",
     "Typedpy.C14.ctor_example",
     "Typedpy.C14.ignore_none_exclusion_necessary",
-    "Typedpy.C14.second_base_ctor_counterexample",
+    "Typedpy.C14.fixed_second_base_ctor",
     "Typedpy.C14.abstract_entries_example",
+    "Typedpy.C14.reachable_no_sealed_ancestor",
+    "Typedpy.C14.sub_required_superset",
 ]
 RULE = ("histories of class statements: DAG hierarchies of 1..4 classes (single / two struct bases, plain mixins "
         "before or after, ImmutableStructure / FinalStructure / AbstractStructure roots), fields from the type-directed "
@@ -130,6 +132,8 @@ def judge(case, impl, model):
             if b["missing_fields"]:
                 fails.append(("fields-not-superset", f"{name} lacks fields {b['missing_fields']} of base {b['base']}"))
             for n in b["missing_required"]:
+                if n in b["base_constants"] and n in b["redeclared"]:
+                    continue   # the subclass replaces the base's Constant by a Field of its own: its requiredness is the subclass's choice
                 if n in b["base_constants"]:
                     key = "required-not-superset:constant"
                 elif n in b["shadowed"]:
